@@ -83,9 +83,28 @@ Definition gate_opt_eqb (a b : option gate) : bool :=
 Definition changed (old new : circuit) : list label :=
   filter (fun l => negb (gate_opt_eqb (dget (gates old) l) (dget (gates new) l))) (dkeys (gates old)).
 
-(* changed gates that are not cone outputs: removed, or their label was reused *)
+(* Gates of old whose definition is the same in new but that read (directly or through other
+   such gates) a changed gate that is not a cone output: their value may change although their
+   definition did not.  This happens when a synthesised gate gets the label of a removed gate
+   and happens to have its type and operands.  The search is unverified (fuel = number of
+   gates): frame_users below re-checks that the result is closed. *)
+Fixpoint tainted (fuel : nat) (old : circuit) (outs acc : list label) : list label :=
+  match fuel with
+  | O => acc
+  | S fuel' =>
+    match filter (fun kg : label * gate =>
+                    negb (memb (fst kg) acc) && negb (memb (fst kg) outs)
+                    && existsb (fun o => memb o acc && negb (memb o outs)) (gops (snd kg)))
+                 (gates old) with
+    | [] => acc
+    | more => tainted fuel' old outs (map fst more ++ acc)
+    end
+  end.
+
+(* the replaced internal gates: changed gates that are not cone outputs (removed, or their
+   label was reused), and the gates that depend on them without passing through a cone output *)
 Definition replaced_internal (old new : circuit) (outs : list label) : list label :=
-  filter (fun l => negb (memb l outs)) (changed old new).
+  filter (fun l => negb (memb l outs)) (tainted (size old) old outs (changed old new)).
 
 (* everything reachable from todo without expanding the labels in seen (unverified search,
    used only to restrict which gates a step may touch) *)
@@ -133,11 +152,11 @@ Definition frame_order (new : circuit) : bool :=
 Definition frame_leaves (old new : circuit) (leaves outs : list label) : bool :=
   forallb (fun l => negb (memb l (replaced_internal old new outs)) && negb (memb l outs)) leaves.
 
-(* no untouched gate (other than the cone outputs, which the cone check covers) reads a
-   replaced internal gate *)
+(* no gate outside the replaced internal gates (other than the cone outputs, which the cone
+   check covers) reads a replaced internal gate *)
 Definition frame_users (old new : circuit) (outs : list label) : bool :=
   forallb (fun kg : label * gate =>
-             memb (fst kg) (changed old new) || memb (fst kg) outs
+             memb (fst kg) (replaced_internal old new outs) || memb (fst kg) outs
              || forallb (fun o => negb (memb o (replaced_internal old new outs))) (gops (snd kg)))
           (gates old).
 
